@@ -92,6 +92,29 @@ pub fn load() -> Vec<CorpusProg> {
     out
 }
 
+/// every `.sc` file below examples/ and testsuite/ (name, text), sorted
+pub fn all_sources() -> Vec<(String, String)> {
+    fn walk(dir: &std::path::Path, out: &mut Vec<(String, String)>) {
+        let Ok(rd) = std::fs::read_dir(dir) else { return };
+        let mut ps: Vec<_> = rd.flatten().map(|e| e.path()).collect();
+        ps.sort();
+        for p in ps {
+            if p.is_dir() {
+                walk(&p, out);
+            } else if p.extension().map(|e| e == "sc").unwrap_or(false) {
+                if let Ok(t) = std::fs::read_to_string(&p) {
+                    out.push((p.to_string_lossy().trim_start_matches("/repo/").to_string(), t));
+                }
+            }
+        }
+    }
+    let mut out = Vec::new();
+    for d in ["/repo/examples", "/repo/testsuite/end_to_end", "/repo/testsuite/success_check", "/repo/testsuite/fail_check", "/repo/benchmarks/suite"] {
+        walk(std::path::Path::new(d), &mut out);
+    }
+    out
+}
+
 fn mine(ctx: &Ctx, idx: usize) -> bool {
     idx % ctx.nshards == ctx.shard
 }
